@@ -323,6 +323,10 @@ func TestVerifBounded(t *testing.T) {
 	which := os.Getenv("VERIF_BOUNDED")
 	tier := os.Getenv("VERIF_TIER")
 	seed, _ := strconv.ParseInt(os.Getenv("VERIF_SEED"), 10, 64)
+	if which == "files" {
+		verifFiles(t, tier)
+		return
+	}
 	if which != "roundtrip" {
 		t.Skip("unknown bounded check " + which)
 	}
@@ -415,9 +419,9 @@ func TestVerifBounded(t *testing.T) {
 	}
 	// 3. seeded random streams: text -> records -> text -> records, and API edits in between
 	rng := rand.New(rand.NewSource(seed + 7))
-	streams := 300
+	streams := 3000
 	if tier == "thorough" {
-		streams = 20000
+		streams = 60000
 	}
 	keys := []string{"goos", "pkg", "k", "note", "a-b", "x1"}
 	for s := 0; s < streams; s++ {
@@ -461,5 +465,177 @@ func TestVerifBounded(t *testing.T) {
 			bad(fmt.Errorf("stream %q: %v", sb.String(), err))
 		}
 	}
-	fmt.Printf("BOUNDED-RESULT {\"cases\": %d, \"failures\": %d, \"bound\": \"all 2-step and (quick: a third of the) 3-step configuration histories of 3 keys x {absent, file=1, file=2, internal}; 12 values x 6 units as text; %d seeded random streams with API edits (seed %d)\", \"exhaustive\": false}\n", n, fails, streams, seed)
+	// 4. the streaming pipeline  reader -> writer  without cloning (the reader reuses its
+	//    buffers between records): what is written must read back as what was read
+	for s := 0; s < streams; s++ {
+		var sb strings.Builder
+		lines := 2 + rng.Intn(14)
+		for l := 0; l < lines; l++ {
+			switch rng.Intn(5) {
+			case 0, 1:
+				fmt.Fprintf(&sb, "%s: %s\n", keys[rng.Intn(3)], []string{"aa", "bb", "cc", "a", "longer value"}[rng.Intn(5)])
+			case 2:
+				fmt.Fprintf(&sb, "%s:\n", keys[rng.Intn(3)])
+			default:
+				fmt.Fprintf(&sb, "BenchmarkS%d %d %d ns/op\n", rng.Intn(3), 1+rng.Intn(100), rng.Intn(1000))
+			}
+		}
+		r := NewReader(strings.NewReader(sb.String()), "t")
+		var buf bytes.Buffer
+		w := NewWriter(&buf)
+		var want []verifRec
+		for r.Scan() {
+			rec := r.Result()
+			if sm, ok := verifSummarise(rec); ok {
+				want = append(want, sm)
+			}
+			if err := w.Write(rec); err != nil {
+				bad(err)
+			}
+		}
+		n++
+		got, err := verifReadAll(buf.String())
+		if err != nil || len(got) != len(want) {
+			bad(fmt.Errorf("streaming %q: wrote %d records, read back %d (%v) from %q", sb.String(), len(want), len(got), err, buf.String()))
+			continue
+		}
+		for i := range want {
+			if !verifSameRec(want[i], got[i]) {
+				bad(fmt.Errorf("streaming %q: record %d was %+v, reads back as %+v (written text %q)", sb.String(), i, want[i], got[i], buf.String()))
+				break
+			}
+		}
+	}
+	fmt.Printf("BOUNDED-RESULT {\"cases\": %d, \"failures\": %d, \"bound\": \"all 2-step and (quick: a third of the) 3-step configuration histories of 3 keys x {absent, file=1, file=2, internal}; 12 values x 6 units as text; %d seeded random streams with API edits and as many streamed reader-to-writer pipelines without cloning (seed %d)\", \"exhaustive\": false}\n", n, fails, streams, seed)
+}
+
+// ---------------------------------------------------------------------------
+// C02: Files — each result carries its own file's label, duplicates disambiguated,
+// configuration does not leak between files, unit metadata carries across.
+
+func verifFiles(t *testing.T, tier string) {
+	n, fails := 0, 0
+	bad := func(f string, args ...any) {
+		fails++
+		if fails <= 12 {
+			t.Errorf("REPLAY-FAIL "+f, args...)
+		}
+	}
+	dir := t.TempDir()
+	// three files; file i sets its own configuration key ki and defines benchmark Bi
+	paths := map[string]string{}
+	for i, nm := range []string{"a", "b", "c"} {
+		p := dir + "/" + nm
+		text := fmt.Sprintf("k%d: v%d\nshared: from-%s\nUnit u%d better=lower\nBenchmarkB%d 1 %d ns/op\n", i, i, nm, i, i, i+1)
+		if err := os.WriteFile(p, []byte(text), 0666); err != nil {
+			t.Fatal(err)
+		}
+		paths[nm] = p
+	}
+	// argument alphabets: bare path, labelled path (two different labels)
+	forms := []string{"a", "b", "c", "L=a", "M=a", "L=b"}
+	maxLen := 4
+	if tier == "thorough" {
+		maxLen = 5
+	}
+	var rec func(args []string)
+	rec = func(args []string) {
+		if len(args) > 0 {
+			for _, allowLabels := range []bool{true, false} {
+				n++
+				var real []string
+				for _, a := range args {
+					if i := strings.Index(a, "="); i >= 0 {
+						real = append(real, a[:i]+"="+paths[a[i+1:]])
+					} else {
+						real = append(real, paths[a])
+					}
+				}
+				if !allowLabels {
+					// without labels "L=a" is a path that does not exist: only use bare forms
+					skip := false
+					for _, a := range args {
+						if strings.Contains(a, "=") {
+							skip = true
+						}
+					}
+					if skip {
+						continue
+					}
+				}
+				// expected label per input
+				bareCount := map[string]int{}
+				for _, a := range real {
+					if !(allowLabels && strings.Contains(a, "=")) {
+						bareCount[a]++
+					}
+				}
+				seen := map[string]int{}
+				var wantLabels []string
+				for _, a := range real {
+					if i := strings.Index(a, "="); allowLabels && i >= 0 {
+						wantLabels = append(wantLabels, a[:i])
+					} else if bareCount[a] == 1 {
+						wantLabels = append(wantLabels, a)
+					} else {
+						wantLabels = append(wantLabels, fmt.Sprintf("%s#%d", a, seen[a]))
+						seen[a]++
+					}
+				}
+				f := Files{Paths: real, AllowLabels: allowLabels}
+				var gotLabels []string
+				idx := 0
+				for f.Scan() {
+					res, ok := f.Result().(*Result)
+					if !ok {
+						continue
+					}
+					gotLabels = append(gotLabels, res.GetConfig(".file"))
+					// the file's own configuration, nothing from the previous file
+					which := args[idx]
+					if i := strings.Index(which, "="); i >= 0 {
+						which = which[i+1:]
+					}
+					fi := map[string]int{"a": 0, "b": 1, "c": 2}[which]
+					for j := 0; j < 3; j++ {
+						v := res.GetConfig(fmt.Sprintf("k%d", j))
+						if j == fi && v != fmt.Sprintf("v%d", j) || j != fi && v != "" {
+							bad("args %v: result of file %s has k%d=%q", args, which, j, v)
+						}
+					}
+					if v := res.GetConfig("shared"); v != "from-"+which {
+						bad("args %v: result of file %s has shared=%q", args, which, v)
+					}
+					idx++
+				}
+				if err := f.Err(); err != nil {
+					bad("args %v: %v", args, err)
+					continue
+				}
+				if strings.Join(gotLabels, ",") != strings.Join(wantLabels, ",") {
+					bad("args %v (labels allowed: %v): .file labels %q, want %q", args, allowLabels, gotLabels, wantLabels)
+				}
+				// unit metadata of every file read so far is still there at the end
+				um := UnitMetadataMap(f.Units())
+				for _, a := range args {
+					which := a
+					if i := strings.Index(which, "="); i >= 0 {
+						which = which[i+1:]
+					}
+					fi := map[string]int{"a": 0, "b": 1, "c": 2}[which]
+					if um.Get(fmt.Sprintf("u%d", fi), "better") == nil {
+						bad("args %v: unit metadata of file %s is gone", args, which)
+					}
+				}
+			}
+		}
+		if len(args) == maxLen {
+			return
+		}
+		for _, fm := range forms {
+			rec(append(append([]string{}, args...), fm))
+		}
+	}
+	rec(nil)
+	fmt.Printf("BOUNDED-RESULT {\"cases\": %d, \"failures\": %d, \"bound\": \"every argument list of length <= %d over 3 files in bare and labelled forms, with and without AllowLabels\", \"exhaustive\": true}\n", n, fails, maxLen)
 }
